@@ -677,6 +677,14 @@ static Hunk hunk_from_context_parts(LineNumber old_start_line, const std::vector
     size_t old_line_number = 0;
     size_t new_line_number = 0;
 
+    // Lines which are changed are given for both files, so only lines which are
+    // removed may be given when the lines of the new file are omitted (and the other way around).
+    const auto has_changed_line = [](const std::vector<PatchLine>& lines) {
+        return std::any_of(lines.begin(), lines.end(), [](const PatchLine& line) { return line.operation == '!'; });
+    };
+    if ((new_lines.empty() && has_changed_line(old_lines)) || (old_lines.empty() && has_changed_line(new_lines)))
+        throw std::invalid_argument("Context patch has changed lines for only one of the files");
+
     while (old_line_number < old_lines.size() || new_line_number < new_lines.size()) {
         const auto* old_line = old_line_number < old_lines.size() ? &old_lines[old_line_number] : nullptr;
         const auto* new_line = new_line_number < new_lines.size() ? &new_lines[new_line_number] : nullptr;
